@@ -2,7 +2,7 @@
    File/FileServer.v transcribes CS101_FileServer_handleAsdu and CS101_FileServer_runTask (tied to the compiled
    plugin by differential execution, white-box state included, on every run). *)
 From Coq Require Import ZArith List Bool.
-From L60870 Require Import Dispatch.DispatchBase File.FileServer File.FileSpec File.FileProofs File.FileInv File.UploadProofs.
+From L60870 Require Import Dispatch.DispatchBase File.FileServer File.FileSpec File.FileProofs File.FileInv File.UploadProofs File.ConnProofs.
 Import ListNotations.
 Local Open Scope Z_scope.
 
@@ -82,6 +82,33 @@ Theorem C20_outcome_only_on_file_ack : forall c e now conn a s s' o r b,
 Proof. exact outcome_only_on_file_ack. Qed.
 Theorem C20_pump_tells_no_outcome : forall c e now conn s b, ~ In (CComplete b) (snd (run_task c e now conn s)).
 Proof. exact run_task_tells_no_outcome. Qed.
+
+(* several connections (CS104 server with more than one client; the slave runs the plugin task for every connection):
+   a request is answered on the connection it arrived on and nowhere else; the segment pump sends only when it runs for the
+   connection that selected the file, and on that connection; run for any other connection it sends nothing and changes
+   nothing except the supervision timeout.  History level: over EVERY sequence of messages from any connection, task runs for
+   any connection and clock steps, starting at power-up, a monitor that remembers the connection of the last positive FILE READY
+   never sees a segment or last-segment on another connection (mon_data_owner spells out what acceptance means). *)
+Theorem C20_answers_on_asking_connection : forall c e now conn a s s' o r,
+  handle_asdu c e now conn a s = HOk s' o r -> forall x c', In x o -> obs_conn x = Some c' -> c' = conn.
+Proof. exact answers_on_asking_connection. Qed.
+Theorem C20_pump_only_to_selecting_connection : forall c e now conn s x c',
+  In x (snd (run_task c e now conn s)) -> obs_conn x = Some c' -> c' = conn /\ selc s = conn /\ sel s = true /\ st s = Transmit.
+Proof. exact pump_only_to_selecting_connection. Qed.
+Theorem C20_pump_other_connection_inert : forall c e now conn s, selc s <> conn ->
+  snd (run_task c e now conn s) = [] /\ (fst (run_task c e now conn s) = s \/ fst (run_task c e now conn s) = set_st s Idle).
+Proof. exact pump_other_connection_inert. Qed.
+Theorem C20_data_goes_to_the_selecting_connection : forall c e evs s' now' o,
+  run c e evs fs0 0 [] = ROk s' now' o -> exists ow', mon None o = Some ow'.
+Proof. exact data_goes_to_the_selecting_connection. Qed.
+Theorem C20_data_monitor_meaning : forall o ow ow' pre cn oa ca ioa nof t post,
+  mon ow o = Some ow' -> o = pre ++ OSend cn oa ca ioa nof t :: post -> is_data t = true ->
+  exists w, mon ow pre = Some (Some w) /\ w = cn.
+Proof. exact mon_data_owner. Qed.
+Example C20_two_connections_example :
+  let o := obs_of (run (cfg0 true) env0 two_conn_script fs0 0 []) in
+  data_conns o = [0; 0; 0] /\ ready_conns o = [0; 1] /\ mon None o = Some (Some 0).
+Proof. exact two_connections. Qed.
 
 (* "reported successful only if all octets were transferred" does NOT hold for arbitrary masters: a negative
    call-section skips a section and the positive file acknowledgement is still reported as success (open finding);
